@@ -1,7 +1,69 @@
-(* C07 - the DNS tunnel delivers every byte exactly once, in order.  (statements are being proved: see Queue/Link_proofs.v) *)
+(* C07 - the DNS tunnel delivers every byte exactly once, in order.  Proofs: Queue/Half.v, Queue/Inv.v, Queue/Link_proofs.v
+   The model (Queue/Queues.v, Queue/Link.v) is the Go queue.go plus the wiring of SendAndReceive / packet(); the network
+   keeps every query and answer ever formed and may deliver any of them, any number of times, at any later time. *)
 From Coq Require Import List NArith ZArith Bool.
-From SA Require Import Base.Tok Queue.Queues Queue.Link.
+From SA Require Import Base.Tok Gen.QueueConsts Queue.Queues Queue.Link Queue.Link_proofs.
 Import ListNotations.
+Local Open Scope nat_scope.
 
-Theorem c07_placeholder : forall c0 s0, queries (init c0 s0) = [].
-Proof. reflexivity. Qed.
+(* admissible A W s evs (Queue/Link_proofs.v): every delivered message is at most A message formations old; every write uses a
+   positive fragment size and makes at most W chunks.  The bound A + W + 128 <= 65536 is not a weakening to taste: with 16-bit
+   numbers a message replayed 65 408+ packets late is indistinguishable from a fresh one for any receiver. *)
+
+(* The bytes an endpoint reads (plus what is buffered for it) are always a prefix of what its peer's writes accepted:
+   no gap, repeat or reordering - for runs of any length (the 16-bit wrap is inside the quantifier) and all starting numbers. *)
+Theorem c07_prefix : forall A W c0 s0 evs,
+  (N.of_nat A + N.of_nat W + SLACK <= M)%N ->
+  admissible A W (init c0 s0) evs = true ->
+  let s := fst (run (init c0 s0) evs) in
+  prefix (rev (rd_s s) ++ in_buf (s_in s)) (rev (acc_c s)) /\
+  prefix (rev (rd_c s) ++ in_buf (c_in s)) (rev (acc_s s)).
+Proof. exact link_prefix. Qed.
+
+(* A write reported as successful (its queue has drained) is delivered. *)
+Theorem c07_acked_means_delivered : forall A W c0 s0 evs,
+  (N.of_nat A + N.of_nat W + SLACK <= M)%N ->
+  admissible A W (init c0 s0) evs = true ->
+  let s := fst (run (init c0 s0) evs) in lost_c s = false /\ lost_s s = false.
+Proof. exact link_not_lost. Qed.
+
+(* The out-of-order store stays empty and the acknowledgement memories stay bounded. *)
+Theorem c07_memory : forall A W c0 s0 evs,
+  (N.of_nat A + N.of_nat W + SLACK <= M)%N ->
+  admissible A W (init c0 s0) evs = true ->
+  let s := fst (run (init c0 s0) evs) in
+  in_future (c_in s) = [] /\ in_future (s_in s) = [] /\
+  List.length (in_acked (c_in s)) <= 128 /\ List.length (in_acked (s_in s)) <= 128 /\
+  List.length (out_acked (c_out s)) <= 128 /\ List.length (out_acked (s_out s)) <= 128.
+Proof. exact link_memory. Qed.
+
+(* Isolated losses, duplicates and late deliveries (within RECENT = 128 message formations) are absorbed: no exchange
+   surfaces as an error. *)
+Theorem c07_no_false_error : forall A W c0 s0 evs,
+  A <= RECENT -> (N.of_nat A + N.of_nat W + SLACK <= M)%N ->
+  admissible A W (init c0 s0) evs = true ->
+  forallb (fun o => negb (is_err o)) (snd (run (init c0 s0) evs)) = true.
+Proof. exact link_no_false_error. Qed.
+
+(* Once the path stops losing, everything accepted arrives. *)
+Theorem c07_progress : forall A W c0 s0 evs k,
+  (N.of_nat A + N.of_nat W + SLACK <= M)%N ->
+  admissible A W (init c0 s0) evs = true ->
+  let s := fst (run (init c0 s0) evs) in
+  k >= 2 * (List.length (out_q (c_out s)) + List.length (out_q (s_out s))) + 2 ->
+  let s' := pump s true k 0 0%N in
+  out_q (c_out s') = [] /\ out_q (s_out s') = [] /\
+  in_total (s_in s') = n_acc_c s' /\ in_total (c_in s') = n_acc_s s'.
+Proof. exact link_progress. Qed.
+
+(* the side conditions on the source's constants that the proofs use (they fail to compile if the source changes) *)
+Theorem c07_source_facts : out_acked_keeps_newest = true /\ max_cached_chunks = 128%N /\ in_window_lo = 1%N /\ in_window_hi = 128%N.
+Proof. repeat split; reflexivity. Qed.
+
+(* non-vacuity: an admissible history with loss, duplication, replay and a multi-chunk write near the wrap *)
+Example c07_nonvacuous :
+  admissible 40 10 (init 65534 65535)
+    [EWrite true [1; 2; 3; 4; 5]%N 2; EQuery; EQuery; EDeliverS 1; EDeliverS 1; EDeliverC 0; EDeliverC 1; EQuery; EDeliverS 0;
+     EWrite false [9; 8; 7]%N 1; EPump true 20 1 7%N; ERead false 3] = true
+  /\ (N.of_nat 40 + N.of_nat 10 + SLACK <= M)%N.
+Proof. split; [vm_compute; reflexivity | vm_compute; discriminate]. Qed.
